@@ -62,7 +62,8 @@ def answerMds (fs : List (String × String)) : String :=
       | some pre, some V, some lam, some Y =>
         let scaleB := maxAbsM B.get
         let lamMax := maxAbsM (vecAsMat lam.get)
-        let scale := if scaleB < lamMax then lamMax else scaleB
+        let scale0 := if scaleB < lamMax then lamMax else scaleB
+        let scale := if scale0 == 0 then 1 else scale0      -- a zero matrix is judged with absolute tolerances
         -- 1. what reached the solver vs the model
         let cpre := cmpMat pre.get B.get (εrel * scale)
         let preTxt := if exact && !cpre.isExact then "INEXACT-" ++ cpre.show else cpre.show
